@@ -88,7 +88,7 @@ def tlc_graph(module, wd, constants, invariants, workers=6, timeout=1500, name="
 # ---------------------------------------------------------------------------------------------
 C19_TIER = {
     "quick": dict(MaxIdx=3, MaxTerm=3, MaxLApp=2, depth=3, random=2500, rlen=10, max_runs=300000),
-    "thorough": dict(MaxIdx=4, MaxTerm=3, MaxLApp=2, depth=3, random=60000, rlen=12, max_runs=3000000),
+    "thorough": dict(MaxIdx=4, MaxTerm=3, MaxLApp=2, depth=4, random=60000, rlen=12, max_runs=1200000),
 }
 
 
@@ -247,8 +247,8 @@ def replay_c19(path):
 # C20
 # ---------------------------------------------------------------------------------------------
 C20_TIER = {
-    "quick": dict(MaxIdx=3, NVal=2, walks=40, wlen=30, dfs_depth=1, reopen_pct=15, cp_walks=10, cp_len=8),
-    "thorough": dict(MaxIdx=4, NVal=2, walks=1500, wlen=40, dfs_depth=2, reopen_pct=20, cp_walks=120, cp_len=10),
+    "quick": dict(MaxIdx=3, NVal=2, walks=40, wlen=30, dfs_depth=1, dfs_depth_rocksdb=1, reopen_pct=15, cp_walks=10, cp_len=8),
+    "thorough": dict(MaxIdx=4, NVal=2, walks=600, wlen=40, dfs_depth=2, dfs_depth_rocksdb=1, reopen_pct=20, cp_walks=120, cp_len=10),
 }
 
 
@@ -567,7 +567,7 @@ def check_c20(tier):
     build()
     gpath, ns, ne, st = c20_graph(wd, T)
     res = run_logstore(wd, gpath, T, ["--walks", str(T["walks"]), "--len", str(T["wlen"]), "--dfs-depth", str(T["dfs_depth"]),
-                                      "--reopen-pct", str(T["reopen_pct"]), "--seed", str(dv.seed()),
+                                      "--dfs-depth-rocksdb", str(T["dfs_depth_rocksdb"]), "--reopen-pct", str(T["reopen_pct"]), "--seed", str(dv.seed()),
                                       "--threads", str(THREADS)])
     viol = c20_violations(res)
     fcp = c20_file_crash_points(wd, T, gpath, T["cp_walks"], T["cp_len"])
